@@ -8,6 +8,7 @@ from gv import rules
 from gv.astutil import compare_parts
 from gv.astutil import const_value
 from gv.astutil import dotted
+from gv.astutil import kwarg
 from gv.astutil import last_attr
 from gv.astutil import mangle
 from gv.astutil import names_in
@@ -160,7 +161,7 @@ def check_append(ctx: Ctx) -> None:
     a = ctx.index.method(HD, "HDFDatabase", "__append_hdf_output")
     call = rules.self_calls(a, "__add_hdf_output_dataset", "HDFDatabase")
     unp = [s for s in stmts_of(a) if isinstance(s, ast.Assign) and isinstance(s.targets[0], ast.Tuple)]
-    ok = len(call) == 1 and len(unp) == 1 and dotted(call[0].args[3]) == dotted(unp[0].targets[0].elts[0]) and any(k.arg == "output_name_to_idx" and dotted(k.value) == dotted(unp[0].targets[0].elts[1]) for k in call[0].keywords)
+    ok = len(call) == 1 and len(unp) == 1 and dotted(call[0].args[3]) == dotted(unp[0].targets[0].elts[0]) and dotted(kwarg(call[0], "output_name_to_idx")) == dotted(unp[0].targets[0].elts[1])
     ctx.ob("11.2-missing-ids", cname(HD, "HDFDatabase", "__append_hdf_output"), ok, "only the missing outputs are appended, with their precomputed indices", node=(call or [a])[0])
 
 
@@ -355,7 +356,7 @@ def check_problem_tables(ctx: Ctx) -> None:
     gw, gr = groups(w), groups(r)
     ctx.ob("11.1-problem-groups", cname(OP, "OptimizationProblem", "from_hdf"), gw == gr and len(gw) >= 5, f"groups written {sorted(gw)} vs read {sorted(gr)}", node=r, stmt="same groups written and read")
     dbw = [c for c in walk_body(w) if isinstance(c, ast.Call) and norm_stmt(c.func) == "self.database.to_hdf"]
-    ok = len(dbw) == 1 and any(k.arg == "append" and const_value(k.value) is True for k in dbw[0].keywords) and any(k.arg == "hdf_node_path" and dotted(k.value) == "hdf_node_path" for k in dbw[0].keywords)
+    ok = len(dbw) == 1 and const_value(kwarg(dbw[0], "append")) is True and dotted(kwarg(dbw[0], "hdf_node_path")) == "hdf_node_path"
     ctx.ob("11.1-problem-groups", cname(OP, "OptimizationProblem", "to_hdf"), ok, "the database must be added to the same file and node (append=True: the description just written must not be erased)", node=(dbw or [w])[0])
 
 
